@@ -695,6 +695,25 @@ class Consumer : public ASTConsumer {
 		Out["globals"] = std::move(V.Globals);
 		Out["files"] = std::move(D.Files);
 		Out["errors"] = (int64_t)Ctx.getDiagnostics().getNumErrors();
+		{
+			// every repository file this unit includes (used to re-analyse only what an edit can influence)
+			json::Array Deps;
+			std::set<std::string> SeenDeps;
+			for(auto It = SM.fileinfo_begin(); It != SM.fileinfo_end(); ++It) {
+				std::string N = It->first->getName().str();
+				if(!StringRef(N).startswith(RepoRoot))
+					continue;
+				N = N.substr(RepoRoot.size());
+				while(!N.empty() && N[0] == '/')
+					N = N.substr(1);
+				size_t p;
+				while((p = N.find("/./")) != std::string::npos)
+					N.erase(p, 2);
+				if(SeenDeps.insert(N).second)
+					Deps.push_back(N);
+			}
+			Out["deps"] = std::move(Deps);
+		}
 		std::error_code EC;
 		llvm::raw_fd_ostream OS(OutFile, EC);
 		if(EC) {
